@@ -64,9 +64,20 @@ def _free_negation(e) -> bool:
     return False
 
 
+def _nnf_ok(e) -> bool:
+    """e is an and/or whose operands are negatable without loss: comparisons, negations, nested and/or of such, or plain
+    names / attributes / calls (which get a `not`).  In test position `not (a or b)` and `not a and not b` are the same test;
+    the second spelling (negation-normal form) is the canonical one."""
+    if isinstance(e, ast.BoolOp):
+        return all(_nnf_ok(v) or _free_negation(v) or isinstance(v, (ast.Name, ast.Attribute, ast.Call, ast.Subscript)) for v in e.values)
+    return False
+
+
 def negate(test: ast.expr) -> ast.expr:
     if isinstance(test, ast.UnaryOp) and isinstance(test.op, ast.Not):
         return test.operand
+    if isinstance(test, ast.BoolOp) and not _free_negation(test) and _nnf_ok(test) and getattr(test, "_asv_test", False):
+        return ast.copy_location(ast.BoolOp(op=ast.Or() if isinstance(test.op, ast.And) else ast.And(), values=[negate(v) for v in test.values]), test)
     if isinstance(test, ast.BoolOp) and _free_negation(test):
         # De Morgan (short-circuit order and truth value are preserved; operands here are tests, used for their truth)
         return ast.copy_location(ast.BoolOp(op=ast.Or() if isinstance(test.op, ast.And) else ast.And(), values=[negate(v) for v in test.values]), test)
@@ -120,6 +131,15 @@ def ifexp(test, a, b):
 
 def _in_test_position(node) -> bool:
     return getattr(node, "_asv_test", False)
+
+
+def _mark_tests_expr(e) -> None:
+    e._asv_test = True
+    if isinstance(e, ast.UnaryOp) and isinstance(e.op, ast.Not):
+        _mark_tests_expr(e.operand)
+    elif isinstance(e, ast.BoolOp):
+        for v in e.values:
+            _mark_tests_expr(v)
 
 
 def _mark_tests(tree) -> None:
@@ -311,6 +331,13 @@ class _Expr(ast.NodeTransformer):
         self.generic_visit(node)
         if isinstance(node.op, ast.Not) and isinstance(node.operand, ast.BoolOp) and _free_negation(node.operand) and _in_test_position(node):
             return negate(node.operand)
+        if isinstance(node.op, ast.Not) and isinstance(node.operand, ast.BoolOp) and _nnf_ok(node.operand) and _in_test_position(node):
+            for v in ast.walk(node.operand):
+                if isinstance(v, ast.BoolOp):
+                    v._asv_test = True
+            out = negate(node.operand)
+            _mark_tests_expr(out)
+            return out
         if isinstance(node.op, ast.Not) and isinstance(node.operand, ast.Compare) and len(node.operand.ops) == 1 and type(node.operand.ops[0]) in _NEGATE:
             c = node.operand
             return ast.copy_location(ast.Compare(left=c.left, ops=[_NEGATE[type(c.ops[0])]()], comparators=c.comparators), node)
@@ -970,7 +997,52 @@ def _coalesce(fn) -> None:
             return
 
 
+def _inline_param_flags(fn) -> None:
+    """`bounded = not uid_cmd` at the top of a function, used in several tests: a local bound once to a tiny pure expression
+    over a parameter that is never rebound is that expression wherever it is read."""
+    params = {a.arg for a in fn.args.args + fn.args.kwonlyargs + fn.args.posonlyargs}
+    stores: dict[str, int] = {}
+    for x in ast.walk(fn):
+        if isinstance(x, ast.Name) and isinstance(x.ctx, (ast.Store, ast.Del)):
+            stores[x.id] = stores.get(x.id, 0) + 1
+        elif isinstance(x, (ast.Global, ast.Nonlocal)):
+            for nm in x.names:
+                stores[nm] = stores.get(nm, 0) + 2
+    stable = {p_ for p_ in params if stores.get(p_, 0) == 0}
+
+    def tiny(e) -> bool:
+        if isinstance(e, ast.Name):
+            return e.id in stable
+        if isinstance(e, ast.UnaryOp) and isinstance(e.op, ast.Not):
+            return tiny(e.operand)
+        if isinstance(e, ast.Compare) and len(e.ops) == 1 and isinstance(e.left, ast.Name) and e.left.id in stable and isinstance(e.comparators[0], ast.Constant):
+            return True
+        return False
+
+    for i, s_ in enumerate(list(fn.body)):
+        if not (isinstance(s_, ast.Assign) and len(s_.targets) == 1 and isinstance(s_.targets[0], ast.Name)):
+            continue
+        nm = s_.targets[0].id
+        if stores.get(nm, 0) != 1 or nm in params or not tiny(s_.value) or isinstance(s_.value, ast.Name):
+            continue
+        uses = [x for st_ in fn.body[i + 1:] for x in ast.walk(st_) if isinstance(x, ast.Name) and x.id == nm and isinstance(x.ctx, ast.Load)]
+        if len(uses) < 2:
+            continue  # single uses are the temporaries' business
+
+        class _T(ast.NodeTransformer):
+            def visit_Name(self, node):
+                if node.id == nm and isinstance(node.ctx, ast.Load):
+                    return ast.copy_location(copy.deepcopy(s_.value), node)
+                return node
+
+        for st_ in fn.body[i + 1:]:
+            _T().visit(st_)
+        fn.body.remove(s_)
+
+
 def canon_function(fn, temp_inlining: bool = True):
+    if temp_inlining:
+        _inline_param_flags(fn)
     st = _Stmts(temp_inlining)
     st._fn = fn
     st._counts = _name_counts(fn)
@@ -1005,6 +1077,9 @@ def canon_pattern(node, temp_inlining: bool = True):
     wrapper = ast.FunctionDef(name="_pattern_", args=ast.arguments(posonlyargs=[], args=[], kwonlyargs=[], kw_defaults=[], defaults=[]), body=body0, decorator_list=[], returns=None, type_comment=None, type_params=[])
     mod = ast.Module(body=[wrapper], type_ignores=[])
     ast.fix_missing_locations(mod)
+    from . import callnorm
+
+    callnorm.normalise_tree(mod)
     canon_module(mod, temp_inlining=temp_inlining)
     body = mod.body[0].body
     if is_stmts:
